@@ -566,3 +566,185 @@ def simplify_spec_candidates(spec: dict):
                     s[kind][vi]["terms"][ti] = {"cls": "Triangle", "name": t["name"],
                                                 "args": {"left": fenc(lo), "top": fenc((lo + hi) / 2), "right": fenc(hi), "height": 1.0}}
                     yield s
+
+
+# ---------------------------------------------------------------------------- shipped examples as swarm source
+def parse_rule_text(text: str) -> dict:
+    """Rule text -> rule spec (own small recursive-descent parser: `and` binds tighter than `or`, both
+    left-associative, parentheses override) so that shipped examples become ordinary specs."""
+    text = text.split("#", 1)[0]
+    toks = text.replace("(", " ( ").replace(")", " ) ").split()
+    if not toks or toks[0] != "if" or "then" not in toks:
+        raise ValueError(f"cannot parse rule: {text}")
+    i_then = toks.index("then")
+    ant, rest = toks[1:i_then], toks[i_then + 1:]
+    weight = None
+    if "with" in rest:
+        w = rest.index("with")
+        weight = fenc(float(rest[w + 1]))
+        rest = rest[:w]
+
+    def prop(ts: list[str]) -> dict:
+        if len(ts) < 3 or ts[1] != "is":
+            raise ValueError(f"cannot parse proposition: {ts}")
+        hedges = []
+        j = 2
+        while j < len(ts) and ts[j] in HEDGES and (j < len(ts) - 1 or ts[j] == "any"):
+            hedges.append(ts[j])
+            j += 1
+        term = ts[j] if j < len(ts) else None
+        if j + 1 < len(ts):
+            raise ValueError(f"trailing tokens in proposition: {ts}")
+        return {"var": ts[0], "hedges": hedges, "term": term}
+
+    con, cur = [], []
+    for t in rest + ["and"]:
+        if t == "and":
+            con.append(prop(cur))
+            cur = []
+        else:
+            cur.append(t)
+    pos = [0]
+
+    def peek():
+        return ant[pos[0]] if pos[0] < len(ant) else None
+
+    def take():
+        pos[0] += 1
+        return ant[pos[0] - 1]
+
+    def p_atom() -> dict:
+        if peek() == "(":
+            take()
+            e = p_or()
+            if take() != ")":
+                raise ValueError("expected )")
+            if "op" in e:
+                e["paren"] = True
+            return e
+        ts = []
+        while peek() is not None and peek() not in ("and", "or", ")"):
+            ts.append(take())
+        return prop(ts)
+
+    def p_and() -> dict:
+        left = p_atom()
+        while peek() == "and":
+            take()
+            left = {"op": "and", "l": left, "r": p_atom(), "paren": False}
+        return left
+
+    def p_or() -> dict:
+        left = p_and()
+        while peek() == "or":
+            take()
+            left = {"op": "or", "l": left, "r": p_and(), "paren": False}
+        return left
+
+    tree = p_or()
+    if pos[0] != len(ant):
+        raise ValueError(f"trailing tokens in antecedent: {ant[pos[0]:]}")
+    return {"ant": tree, "con": con, "weight": weight, "enabled": True}
+
+
+def _term_spec(t) -> dict:
+    cls = type(t).__name__
+    if cls == "Function":
+        args: dict[str, Any] = {"formula": t.formula, "variables": {k: fenc(v) for k, v in t.variables.items()}}
+    elif cls == "Linear":
+        args = {"coefficients": [fenc(c) for c in t.coefficients]}
+    elif cls == "Discrete":
+        args = {"values": [fenc(v) for v in np.asarray(t.values, dtype=float).ravel()], "height": fenc(t.height)}
+    elif cls == "Constant":
+        args = {"value": fenc(t.value)}
+    else:
+        args = {k: fenc(v) for k, v in vars(t).items() if k != "name"}
+    return {"cls": cls, "name": t.name, "args": args}
+
+
+def spec_from_engine(e) -> dict:
+    """JSON spec of a live engine (used to turn the shipped examples into swarm configurations)."""
+    def norm(o):
+        return type(o).__name__ if o is not None else None
+    inputs = [{"name": v.name, "min": fenc(v.minimum), "max": fenc(v.maximum), "lock_range": bool(v.lock_range), "enabled": bool(v.enabled),
+               "terms": [_term_spec(t) for t in v.terms]} for v in e.input_variables]
+    outputs = []
+    for v in e.output_variables:
+        d = v.defuzzifier
+        if d is None:
+            dz, fam = None, "none"
+        elif isinstance(d, fl.IntegralDefuzzifier):
+            dz, fam = {"cls": type(d).__name__, "resolution": int(d.resolution)}, "mamdani"
+        else:
+            dz = {"cls": type(d).__name__, "type": d.type.name}
+            classes = {type(t).__name__ for t in v.terms}
+            fam = "takagi" if classes <= {"Constant", "Linear", "Function"} else ("tsukamoto" if classes <= set(MONOTONIC) else "inverse")
+        outputs.append({"name": v.name, "min": fenc(v.minimum), "max": fenc(v.maximum), "lock_range": bool(v.lock_range),
+                        "lock_previous": bool(v.lock_previous), "default": fenc(v.default_value), "enabled": bool(v.enabled),
+                        "aggregation": norm(v.aggregation), "defuzzifier": dz, "family": fam, "terms": [_term_spec(t) for t in v.terms]})
+    blocks = []
+    for b in e.rule_blocks:
+        a = b.activation
+        act: dict[str, Any] | None = None
+        if a is not None:
+            act = {"cls": type(a).__name__}
+            if hasattr(a, "rules"):
+                act["rules"] = int(a.rules)
+            if hasattr(a, "threshold"):
+                act["threshold"] = fenc(a.threshold)
+            if hasattr(a, "comparator"):
+                act["comparator"] = a.comparator.value
+        rules = []
+        for r in b.rules:
+            rs = parse_rule_text(f"if {r.antecedent.text} then {r.consequent.text}")
+            rs["weight"] = None if float(r.weight) == 1.0 else fenc(r.weight)
+            rs["enabled"] = bool(r.enabled)
+            rules.append(rs)
+        blocks.append({"name": b.name, "enabled": bool(b.enabled), "conjunction": norm(b.conjunction), "disjunction": norm(b.disjunction),
+                       "implication": norm(b.implication), "activation": act, "rules": rules})
+    spec = {"name": e.name, "inputs": inputs, "outputs": outputs, "blocks": blocks}
+    spec["flags"] = {"fn_reads_output": fn_reads_output(spec), "example": e.name}
+    return spec
+
+
+_EXAMPLES: list[dict] | None = None
+
+
+def load_example_specs() -> list[dict]:
+    """Specs of the shipped example engines, produced in a *subprocess* (the caller stays pristine: importing
+    and building 61 engines must not touch this process's library state). Call once in the parent before forking."""
+    global _EXAMPLES
+    if _EXAMPLES is None:
+        import json
+        import subprocess
+        import sys as _sys
+        code = ("import sys, json; sys.path.insert(0, %r); sys.path.insert(0, %r)\n"
+                "from simkit import spec as S\nimport fuzzylite as fl\n"
+                "out = []\n"
+                "for e in fl.Op.glob_examples('engine'):\n"
+                "    try:\n        out.append(S.spec_from_engine(e))\n    except Exception as ex:\n        print('skip', e.name, ex, file=sys.stderr)\n"
+                "print(json.dumps(out))\n") % (env.VERIF, env.REPO)
+        r = subprocess.run([_sys.executable, "-c", code], capture_output=True, text=True, timeout=120,
+                           env=dict(__import__("os").environ, VERIF_REPO=env.REPO, PYTHONHASHSEED="0"))
+        if r.returncode != 0:
+            raise RuntimeError("cannot load example specs: " + r.stderr[-500:])
+        _EXAMPLES = json.loads(r.stdout.strip().splitlines()[-1])
+    return _EXAMPLES
+
+
+def example_spec(rng, allow_fn_reads_output: bool = False, randomise_cascade: bool = True) -> dict | None:
+    """A shipped example as swarm configuration (deep copy), optionally with randomised cascade settings."""
+    if not _EXAMPLES:
+        return None
+    cands = [e for e in _EXAMPLES if allow_fn_reads_output or not e["flags"]["fn_reads_output"]]
+    sp = copy.deepcopy(C(rng, cands))
+    if randomise_cascade and rng.random() < 0.6:
+        for o in sp["outputs"]:
+            lo, hi = fdec(o["min"]), fdec(o["max"])
+            o["lock_previous"] = rng.random() < 0.5
+            o["lock_range"] = rng.random() < 0.4
+            o["default"] = fenc(C(rng, [nan, nan, lo, hi, (lo + hi) / 2, hi + 1.0]))
+    for o in sp["outputs"]:
+        if o["defuzzifier"] and "resolution" in o["defuzzifier"] and o["defuzzifier"]["resolution"] > 200:
+            o["defuzzifier"]["resolution"] = C(rng, [20, 50, 100, 200])
+    return sp
